@@ -34,6 +34,8 @@ def plan(tier, seed):
     shards = [{"ids": [r["id"] for r in c]} for c in common.stripe(pick, 10 if q else 30)]
     shards.append({"isomers": 150 if q else 2000})
     shards.append({"pairs": 300 if q else 1500})
+    # small inorganic species side by side (several spellings of hydrogen gas, bare metals and ions, hydrides ...)
+    shards.append({"small_species": 120 if q else 1200})
     # the consumer the property is named after: `python -m synrbl benchmark` counting rows as correct
     for k in range(1 if q else 6):
         shards.append({"benchmark": 90 if q else 150, "salt": k})
@@ -184,6 +186,27 @@ HETERO = ["c1ccsc1", "c1cscn1", "Cc1nccs1", "c1ccc2sccc2c1", "c1cc[se]c1", "c1cc
           "c1ccc2[se]ccc2c1", "n1ccsc1N", "c1ccnnc1", "c1ncncn1", "c1cc2ccccc2o1", "Cn1ccnc1"]
 
 
+SMALL = ["[H][H]", "[HH]", "[H+]", "[H-]", "[Li+]", "[LiH]", "[Mg+2]", "[Al+3]", "[Ag+]", "[Na+]", "[K+]", "[Zn+2]", "[Cu+2]",
+         "[OH-]", "O", "N", "Cl", "Br", "[Cl-]", "[Br-]", "[I-]", "[F-]", "OO", "O=O", "N#N", "[C-]#[O+]", "O=C=O", "S",
+         "[NH4+]", "[BH4-]", "[AlH4-]", "[Li]C", "[Mg](Br)C", "B", "P", "[SiH4]", "C", "CC", "C=C", "C#C", "[2H][2H]",
+         "[H]Cl", "[H]O[H]", "[Na+].[H-]", "[Li+].[AlH4-]", "[Ca+2]", "[Fe+3]", "[Pd]", "[Pt]", "[Hg]", "[Au]", "[Mg]", "[Zn]"]
+
+
+def small_species_reactions(rng, n):
+    sp = [x for x in SMALL if oracle.in_domain_smiles(x)]
+    org = [("CC=O", "CCO"), ("CC(C)=O", "CC(C)O"), ("C=CC", "CCC"), ("N#CC", "NCC"), ("CC(=O)OC", "CCO.CO")]
+    out = []
+    for _ in range(n):
+        a, b = rng.choice(org)
+        k = rng.randint(2, 4)
+        left = [a] + rng.sample(sp, k)
+        right = [b] + rng.sample(sp, rng.randint(1, 3))
+        rng.shuffle(left)
+        rng.shuffle(right)
+        out.append("%s>>%s" % (".".join(left), ".".join(right)))
+    return out
+
+
 def benchmark_rows(rng, n):
     """(expected, result) pairs that are variants of one another (same fragment multisets by the oracle):
     corpus reactions + small reactions over S / Se / P / O / N hetero-aromatics in aromatic and Kekule spelling"""
@@ -317,6 +340,10 @@ def work(shard, res, tier, seed):
         return
     if "benchmark" in shard:
         benchmark_part(shard["benchmark"], rng, res)
+    if "small_species" in shard:
+        for rx in small_species_reactions(rng, shard["small_species"]):
+            check_reaction(rx, rng, res, normalize_smiles, wc_similarity)
+            res.count("small_species_reactions")
     if "ids" in shard:
         byid = {r["id"]: r for r in corpus.validation_rows()}
         for i in shard["ids"]:
@@ -365,4 +392,4 @@ def work(shard, res, tier, seed):
 def conclude_args(res, tier, seed):
     return {"need": {"idempotence_evaluated": 200, "variants_evaluated:perm": 500,
                      "variants_evaluated:respell": 200, "pairs_evaluated": 150,
-                     "colliding_isomer_pairs": 20, "benchmark_cli_runs": 3, "benchmark_rows": 150}, "min_cases": 100}
+                     "colliding_isomer_pairs": 20, "benchmark_cli_runs": 3, "benchmark_rows": 150, "small_species_reactions": 50}, "min_cases": 100}
